@@ -106,6 +106,7 @@ type Exec struct {
 	discharged   int
 	symBits      int
 	choices      int
+	envPool      [][][]Value
 	decided      map[*Term]bool // conditions already decided on this path
 	locks        map[*Value]bool // mutexes currently held (lockset)
 	unlockedCache int
@@ -218,6 +219,8 @@ func (e *Exec) decide(c *Term) bool {
 	return take
 }
 
+// assume restricts the path to c without forking: inputs violating an
+// assumption are outside the claim, so no sibling path is created for them.
 func (e *Exec) assume(c *Term) {
 	if c.IsConst() {
 		if c.V == 0 {
@@ -225,9 +228,69 @@ func (e *Exec) assume(c *Term) {
 		}
 		return
 	}
-	if !e.decide(c) {
-		panic(pathEnd{"assume", "false"})
+	key, neg := c, false
+	if c.Op == ONot {
+		key, neg = c.A, true
 	}
+	if v, ok := e.decided[key]; ok {
+		if v == neg {
+			panic(pathEnd{"assume", "false"})
+		}
+		return
+	}
+	if e.pos < len(e.prefix) {
+		// replaying a prefix: the carried model satisfies the whole prefix path
+		// condition including this assumption
+		e.solver.Assert(c)
+		e.decided[key] = !neg
+		return
+	}
+	if c.Eval(e.model) != 1 {
+		r := e.solver.Check(c)
+		if r == "sat" {
+			e.model = e.solver.Model()
+			e.solver.Pop()
+		} else {
+			e.solver.Pop()
+			if r != "unsat" {
+				e.cut("solver:" + r)
+			}
+			panic(pathEnd{"assume", "false"})
+		}
+	}
+	e.solver.Assert(c)
+	e.decided[key] = !neg
+}
+
+// choose implements verifChoice(n): a fresh, otherwise unconstrained input in
+// [0,n). Every value is feasible, so siblings are created without a query.
+func (e *Exec) choose(n uint64) uint64 {
+	v := e.freshVar(64, "c")
+	e.choices++
+	if e.pos < len(e.prefix) {
+		d := e.prefix[e.pos]
+		if d.k != 'c' {
+			panic("replay divergence: expected choice entry")
+		}
+		e.pos++
+		e.trace = append(e.trace, d)
+		e.solver.Assert(Eq(v, Const(64, d.v)))
+		return d.v
+	}
+	e.pos++
+	for k := uint64(1); k < n; k++ {
+		m := make(map[string]uint64, len(e.model)+1)
+		for a, b := range e.model {
+			m[a] = b
+		}
+		m[v.Name] = k
+		sib := append(append([]Dec{}, e.trace...), Dec{k: 'c', v: k})
+		e.enqueue(sib, m)
+	}
+	e.model[v.Name] = 0
+	e.trace = append(e.trace, Dec{k: 'c', v: 0})
+	e.solver.Assert(Eq(v, Const(64, 0)))
+	return 0
 }
 
 // concretize a symbolic int by enumerating feasible values (small domains).
@@ -407,7 +470,8 @@ func (e *Exec) callFn(fn *ssa.Function, args []Value, env []Value) Value {
 	e.stack = append(e.stack, fn)
 	defer func() { e.depth--; e.stack = e.stack[:len(e.stack)-1] }()
 	info := getInfo(fn)
-	fr := &frame{e: e, fn: fn, info: info, env: make([]Value, info.n)}
+	fr := &frame{e: e, fn: fn, info: info, env: e.getEnv(info.n)}
+	defer e.putEnv(fr.env)
 	for i, p := range fn.Params {
 		fr.env[info.idx[p]] = args[i]
 	}
@@ -439,6 +503,33 @@ func (e *Exec) callFn(fn *ssa.Function, args []Value, env []Value) Value {
 		}
 	}()
 	return fr.result
+}
+
+// frame environments are recycled per Exec (they never escape a call:
+// Alloc'd cells and closure bindings are separate objects).
+func (e *Exec) getEnv(n int) []Value {
+	if n < len(e.envPool) {
+		if l := e.envPool[n]; len(l) > 0 {
+			s := l[len(l)-1]
+			e.envPool[n] = l[:len(l)-1]
+			return s
+		}
+	}
+	return make([]Value, n)
+}
+
+func (e *Exec) putEnv(s []Value) {
+	n := len(s)
+	if n >= 512 {
+		return
+	}
+	for i := range s {
+		s[i] = nil
+	}
+	if e.envPool == nil {
+		e.envPool = make([][][]Value, 512)
+	}
+	e.envPool[n] = append(e.envPool[n], s)
 }
 
 func (fr *frame) runBlock() {
